@@ -217,6 +217,25 @@ def test_strptime(count):
             count[0] += 1
 
 
+def test_float_repr(count):
+    rnd = random.Random(5)
+    pool = ["0.0", ".0", "0.", "2.", ".5", "+1.5", "-0.0", "-.25", "007.500", "1.50", "10.01", "0.001", "0.0001",
+            "123456.789", " 3.25 ", "1000000.0", "00.10", "-12.", "0.10"]
+    pool += ["".join(rnd.choice("0123456789") for _ in range(rnd.randint(1, 4))) + "." +
+             "".join(rnd.choice("0123456789") for _ in range(rnd.randint(0, 4))) for _ in range(300)]
+    for s in pool:
+        def sym():
+            return SymStr.mk(cmodels.float_repr(pin(s)))
+        try:
+            got = ("ok", unpin(sym()))
+        except Unsupported:
+            continue
+        real = ("ok", repr(float(s)))
+        if got != real:
+            raise Mismatch("float_repr(%r): model %r, CPython %r" % (s, got, real))
+        count[0] += 1
+
+
 def test_format(count):
     ctx = Ctx.cur
     for v in [0, 5, 9, 10, 99, 100, 999, 1000, 9999, 123456, -1, -12]:
@@ -264,7 +283,7 @@ def run(scale=1.0):
     errors = []
 
     def path(ctx):
-        for t in (test_int, test_float, test_strmethods, test_regex, test_strptime, test_format):
+        for t in (test_int, test_float, test_float_repr, test_strmethods, test_regex, test_strptime, test_format):
             t(count)
 
     ex = Explorer(alphabet="omni", max_steps=10 ** 9)
